@@ -31,6 +31,8 @@ static mut MAPS: [Mapping; MCAP] = [NOMAP; MCAP];
 static mut NMAPS: usize = 0;
 static LOCK: AtomicBool = AtomicBool::new(false);
 static SERIAL: AtomicU64 = AtomicU64::new(1);
+/// injected system-call faults that actually fired (process-wide: the controller reads it after the actor ran)
+static FAULTS_FIRED: AtomicU64 = AtomicU64::new(0);
 
 #[derive(Clone, Copy, Debug, PartialEq, Eq)]
 pub enum MViol {
@@ -49,7 +51,10 @@ thread_local! {
     static FAIL_MMAP_AT: Cell<u32> = const { Cell::new(0) };
     static FAIL_MPROTECT: Cell<bool> = const { Cell::new(false) };
     static MMAP_CALLS: Cell<u32> = const { Cell::new(0) };
-    static FAULTS_FIRED: Cell<u32> = const { Cell::new(0) };
+    /// injected fault: the n-th (1-based) read call made inside a loader fails (EIO) or reports end of file
+    static FAIL_READ_AT: Cell<u32> = const { Cell::new(0) };
+    static FAIL_READ_EOF: Cell<bool> = const { Cell::new(false) };
+    static READ_CALLS: Cell<u32> = const { Cell::new(0) };
 }
 
 fn lock() {
@@ -74,7 +79,7 @@ pub unsafe extern "C" fn mmap(addr: *mut libc::c_void, len: libc::size_t, prot: 
             c.get()
         });
         if FAIL_MMAP_AT.with(|c| c.get()) == n {
-            FAULTS_FIRED.with(|c| c.set(c.get() + 1));
+            FAULTS_FIRED.fetch_add(1, Ordering::SeqCst);
             set_errno(libc::ENOMEM);
             return libc::MAP_FAILED;
         }
@@ -108,6 +113,27 @@ pub unsafe extern "C" fn mmap(addr: *mut libc::c_void, len: libc::size_t, prot: 
         unlock();
     }
     r as *mut libc::c_void
+}
+
+/// `read(2)` as called by std's `File`: inside a loader the simulator can make the n-th call fail
+/// with EIO (disk error) or return 0 (the file shrank between `stat` and `read`).
+#[no_mangle]
+pub unsafe extern "C" fn read(fd: libc::c_int, buf: *mut libc::c_void, count: libc::size_t) -> libc::ssize_t {
+    if IN_LOADER.with(|c| c.get()) > 0 {
+        let n = READ_CALLS.with(|c| {
+            c.set(c.get() + 1);
+            c.get()
+        });
+        if FAIL_READ_AT.with(|c| c.get()) == n {
+            FAULTS_FIRED.fetch_add(1, Ordering::SeqCst);
+            if FAIL_READ_EOF.with(|c| c.get()) {
+                return 0;
+            }
+            set_errno(libc::EIO);
+            return -1;
+        }
+    }
+    libc::syscall(libc::SYS_read, fd, buf, count) as libc::ssize_t
 }
 
 #[no_mangle]
@@ -145,7 +171,7 @@ pub unsafe extern "C" fn munmap(addr: *mut libc::c_void, len: libc::size_t) -> l
 #[no_mangle]
 pub unsafe extern "C" fn mprotect(addr: *mut libc::c_void, len: libc::size_t, prot: libc::c_int) -> libc::c_int {
     if IN_LOADER.with(|c| c.get()) > 0 && FAIL_MPROTECT.with(|c| c.get()) {
-        FAULTS_FIRED.with(|c| c.set(c.get() + 1));
+        FAULTS_FIRED.fetch_add(1, Ordering::SeqCst);
         set_errno(libc::EACCES);
         return -1;
     }
@@ -187,6 +213,7 @@ pub fn loader_enter(op: u16) -> LoaderCall {
     IN_LOADER.with(|c| c.set(c.get() + 1));
     CUR_OP.with(|c| c.set(op));
     MMAP_CALLS.with(|c| c.set(0));
+    READ_CALLS.with(|c| c.set(0));
     LoaderCall
 }
 impl Drop for LoaderCall {
@@ -194,7 +221,12 @@ impl Drop for LoaderCall {
         IN_LOADER.with(|c| c.set(c.get() - 1));
         FAIL_MMAP_AT.with(|c| c.set(0));
         FAIL_MPROTECT.with(|c| c.set(false));
+        FAIL_READ_AT.with(|c| c.set(0));
     }
+}
+pub fn inject_read_failure(nth: u32, eof: bool) {
+    FAIL_READ_AT.with(|c| c.set(nth));
+    FAIL_READ_EOF.with(|c| c.set(eof));
 }
 pub fn inject_mmap_failure(nth: u32) {
     FAIL_MMAP_AT.with(|c| c.set(nth));
@@ -203,7 +235,7 @@ pub fn inject_mprotect_failure() {
     FAIL_MPROTECT.with(|c| c.set(true));
 }
 pub fn take_faults_fired() -> u32 {
-    FAULTS_FIRED.with(|c| c.replace(0))
+    FAULTS_FIRED.swap(0, Ordering::SeqCst) as u32
 }
 
 /// Live loader mappings (copy).
